@@ -1,9 +1,120 @@
 import Driver.Proto
+import ScrapliModel.Generated.Platforms
 namespace Driver
-open Scrapli
+open Scrapli Scrapli.Rx Scrapli.Platform Scrapli.Gen.Platforms
+
+/-! Line protocol of property C17 (arguments after the leading `c17` token). Strings travel as hex
+of their UTF-8 bytes (`-` = empty).
+
+* `names` → `adv=<hex,…> files=<hex,…> loaded=<file:variant,…>`
+* `adv <name>` → `dom=<advertised?> spec=<NewPlatform(name) must succeed: file embedded, parses, has default>`
+* `def <file> <variant>` → `kind=<network|generic|none> err=<ok|badoption> loads=<constructs> ` ++ `Def.canon` of what
+  `NewPlatform` (variant `-`) / `NewPlatformVariant` hands to `setDriver`; `none` when unknown
+* `wit <file> <variant>` → `lv=<key:witness:authWitness:targetable,…> cls=<key+key|key…> checks=<bits>`
+* `match <file> <variant> <key> <subject>` → `<levelMatches> <find span of the level pattern>`
+* `jfind <file> <variant> <key,key,…> <subject>` → find span of the joined pattern in that order
+* `graph <key/name/previous,…>` → `graph=<buildPrivGraph does not panic> tree=<singleTree> keyname=<keyEqName>`
+* `merge <9 base fields> <9 variant fields>` → the nine merged fields + ` kind= err=` (sections are
+  opaque tokens; only presence matters to `mergeVariant`)
+-/
+
+def unhexS (h : String) : Option String :=
+  (fromHex h).bind fun b => String.fromUTF8? (ByteArray.mk b.toArray)
+
+def kindS : DriverKind → String
+  | .generic => "generic" | .network => "network" | .none => "none"
+def errS : LoadErr → String
+  | .ok => "ok" | .badoption => "badoption"
+
+def lookupHex (hf hv : String) : Option Loaded :=
+  match unhexS hf, unhexS hv with
+  | some f, some v => lookupLoaded files f v
+  | _, _ => none
+
+def spanS : Option (Nat × Nat × Caps) → String
+  | none => "-"
+  | some (a, e, _) => s!"{a}:{e}"
+
+def parseSteps (s : String) : Option (List String) :=
+  if s == "nil" then none else if s == "[]" then some [] else some (s.splitOn ";")
+def showSteps : Option (List String) → String
+  | none => "nil" | some [] => "[]" | some l => ";".intercalate l
+def parseList (s : String) : List String := if s == "." then [] else s.splitOn ","
+def showList (l : List String) : String := if l.isEmpty then "." else ",".intercalate l
+
+def parseSections : List String → Option (Sections String String String)
+  | [dt, fw, oo, oc, pl, dd, noo, noc, opt] =>
+    match unhexS dt, unhexS dd with
+    | some dt, some dd =>
+      some { driverType := dt, failedWhen := parseList fw, onOpen := parseSteps oo, onClose := parseSteps oc,
+             levels := parseList pl, defaultLevel := dd, netOnOpen := parseSteps noo, netOnClose := parseSteps noc,
+             options := parseList opt }
+    | _, _ => none
+  | _ => none
+
+def showSections (p : Sections String String String) : String :=
+  " ".intercalate [hexS p.driverType, showList p.failedWhen, showSteps p.onOpen, showSteps p.onClose,
+    showList p.levels, hexS p.defaultLevel, showSteps p.netOnOpen, showSteps p.netOnClose, showList p.options]
+
+def checksS (d : Def) : String :=
+  String.join ([driverTypeValid d, defaultLevelExists d, singleTree d, keyEqName d, patternsCompile d,
+    witnessesOk d, authEdgesOk d, onxWellformed d, allReachable d, transitionsUnambiguous d].map b2s)
 
 /-- line-protocol handler for property C17 (arguments after the leading `c17` token) -/
 def handleC17 : List String → String
+  | ["names"] =>
+    "adv=" ++ showList (advertised.map hexS) ++ " files=" ++ showList (embeddedFiles.map hexS)
+      ++ " loaded=" ++ showList ((allLoaded files).map fun l => hexS l.file ++ ":" ++ hexS l.variant)
+  | ["adv", hn] =>
+    match unhexS hn with
+    | none => "bad-op"
+    | some n =>
+      let ok := embeddedFiles.contains (n ++ ".yaml") &&
+        files.any fun f => f.file == n ++ ".yaml" && f.parses && f.hasDefault && constructs f.default
+      s!"dom={b2s (advertised.contains n)} spec={b2s ok}"
+  | ["def", hf, hv] =>
+    match lookupHex hf hv with
+    | none => "none"
+    | some l =>
+      let r := setDriver l.d
+      s!"kind={kindS r.1} err={errS r.2} loads={b2s (constructs l.d)} " ++ l.d.canon
+  | ["wit", hf, hv] =>
+    match lookupHex hf hv with
+    | none => "none"
+    | some l =>
+      "lv=" ++ showList (l.d.levels.map fun x =>
+          ":".intercalate [hexS x.key, toHex x.witness, toHex x.authWitness, b2s (targetable x)])
+        ++ " cls=" ++ "|".intercalate ((promptClasses l.d).map fun c => "+".intercalate (c.map hexS))
+        ++ " checks=" ++ checksS l.d
+  | ["match", hf, hv, hk, hs] =>
+    match lookupHex hf hv, unhexS hk, fromHex hs with
+    | some l, some k, some s =>
+      match findLevel l.d k with
+      | none => "none"
+      | some x => s!"{b2s (levelMatches x s)} {spanS (find x.pattern s)}"
+    | _, _, _ => "bad-op"
+  | ["jfind", hf, hv, order, hs] =>
+    match lookupHex hf hv, (parseList order).mapM unhexS, fromHex hs with
+    | some l, some ks, some s => spanS (find (joinedInOrder l.d ks) s)
+    | _, _, _ => "bad-op"
+  | ["graph", lv] =>
+    let ls : Option (List Level) := (parseList lv).mapM fun e =>
+      match (e.splitOn "/").mapM unhexS with
+      | some [k, n, p] => some { key := k, name := n, previous := p }
+      | _ => none
+    match ls with
+    | none => "bad-op"
+    | some ls =>
+      let d : Def := { driverType := "network", levels := ls }
+      s!"graph={b2s (graphBuildable d)} tree={b2s (singleTree d)} keyname={b2s (keyEqName d)}"
+  | "merge" :: rest =>
+    if rest.length != 18 then "bad-op" else
+    match parseSections (rest.take 9), parseSections (rest.drop 9) with
+    | some p, some v =>
+      let m := mergeVariant p v
+      let r := setDriver m
+      showSections m ++ s!" kind={kindS r.1} err={errS r.2}"
+    | _, _ => "bad-op"
   | _ => "bad-op"
 
 end Driver
